@@ -2,9 +2,10 @@
 # usage: seedfinalpar.sh <name>:<prop>[,<prop>] ...   — tools/seedfinal.py spread over 4 universes (refresh them first:
 # tools/universe.sh make k); the updated meta.json files are copied back to /verif/seeded
 mkdir -p /verif/build/seedpar
+US=(${UNIVERSES:-1 2 3 4})
 i=0
-for spec in "$@"; do k=$(( i % 4 + 1 )); i=$((i+1)); lists[$k]="${lists[$k]} $spec"; done
-for k in 1 2 3 4; do
+for spec in "$@"; do k=${US[$(( i % ${#US[@]} ))]}; i=$((i+1)); lists[$k]="${lists[$k]} $spec"; done
+for k in ${US[@]}; do
   [ -z "${lists[$k]}" ] && continue
   ( /verif/tools/universe.sh run $k python3 tools/seedfinal.py ${lists[$k]} > /verif/build/seedpar/final$k.log 2>&1
     for spec in ${lists[$k]}; do n=${spec%%:*}; cp /tmp/u/$k/verif/seeded/$n/meta.json /verif/seeded/$n/meta.json; done ) &
